@@ -623,6 +623,8 @@ pub fn build_synth(seed: u64) -> Option<SynthArena> {
 
 pub struct Pool {
     pub synth: SynthArena,
+    /// a caller-owned read-write-execute page (a JIT buffer): functions that keep a counter in their own page
+    pub jit: Option<Arena>,
     pub targets: Vec<Target>,
     /// synthetic functions that are never targets: (addr, id)
     pub neighbours: Vec<(usize, u32)>,
@@ -637,9 +639,57 @@ pub fn build_pool(seed: u64) -> Pool {
 /// `nosynth`: leave the synthetic arena functions out (under valgrind the client address space is
 /// managed by valgrind, which does not honour mmap hints next to arbitrary arenas)
 pub fn build_pool_ex(seed: u64, nosynth: bool) -> Pool {
+    build_pool_full(seed, nosynth, false)
+}
+
+/// `selfcount`: add functions living in a read-write-execute page of their own that increment a counter
+/// stored in that page on every call (a JIT buffer whose code keeps data next to itself). "Behaves exactly
+/// as before" includes that they can still do so once the injector is gone. Their calls change bytes of an
+/// executable mapping, so the byte-diff monitor of C03 is not combined with them.
+pub fn build_pool_full(seed: u64, nosynth: bool, selfcount: bool) -> Pool {
     let synth = build_synth(seed).expect("synthetic arena");
     let mut targets: Vec<Target> = Vec::new();
     let mut neighbours = Vec::new();
+    let mut jit = None;
+    if selfcount && !nosynth {
+        let base = synth.arena.base + 0x40_0000;
+        if crate::maps::is_free(base - PAGE, 3 * PAGE) {
+            if let Some(ar) = Arena::map_at(base, PAGE, RWX) {
+                ar.fill(0xCC);
+                for k in 0..4usize {
+                    let addr = base + 0x100 + 0x40 * k + [0usize, 3, 8, 13][k];
+                    let id = 0x2500 + k as u32;
+                    // lock inc dword ptr [rip + 0x29] ; mov eax, id ; ret ; ... ; counter at addr + 0x30
+                    let mut code = vec![0xF0, 0xFF, 0x05, 0x29, 0, 0, 0, 0xB8];
+                    code.extend_from_slice(&id.to_le_bytes());
+                    code.push(0xC3);
+                    ar.write(addr, &code);
+                    ar.write(addr + 0x30, &[0, 0, 0, 0]);
+                    targets.push(Target {
+                        name: format!("selfcount@{:x}", addr),
+                        fam: Fam::I32,
+                        addr,
+                        orig: id as i64,
+                        synthetic: true,
+                        call: Box::new(move || {
+                            let c0 = unsafe { std::ptr::read_unaligned((addr + 0x30) as *const u32) };
+                            let v = unsafe { call0(addr) } as i64;
+                            let c1 = unsafe { std::ptr::read_unaligned((addr + 0x30) as *const u32) };
+                            // the original counts its calls; anything returning the original's value without
+                            // counting is not the original
+                            if v == id as i64 && c1 != c0.wrapping_add(1) {
+                                -0x2500
+                            } else {
+                                v
+                            }
+                        }),
+                        mk: Box::new(move || fp(addr, SIG_I32)),
+                    });
+                }
+                jit = Some(ar);
+            }
+        }
+    }
     for (i, &(addr, id, is_bool)) in synth.slots.iter().enumerate() {
         if nosynth {
             break;
@@ -726,5 +776,5 @@ pub fn build_pool_ex(seed: u64, nosynth: bool) -> Pool {
     targets.push(Target { name: "async a0".into(), fam: Fam::AsyncU32, addr: poll_addr(&a0(0)), orig: 6, synthetic: false, call: Box::new(|| block_on(a0(5)).0 as i64), mk: Box::new(|| fp(1, "")) });
     targets.push(Target { name: "async a1".into(), fam: Fam::AsyncU32, addr: poll_addr(&a1(0)), orig: 7, synthetic: false, call: Box::new(|| block_on(a1(5)).0 as i64), mk: Box::new(|| fp(1, "")) });
     targets.push(Target { name: "async a2".into(), fam: Fam::AsyncStr, addr: poll_addr(&a2("")), orig: hash_str("orig:x"), synthetic: false, call: Box::new(|| hash_str(&block_on(a2("x")).0)), mk: Box::new(|| fp(1, "")) });
-    Pool { synth, targets, neighbours }
+    Pool { synth, jit, targets, neighbours }
 }
